@@ -582,6 +582,7 @@ func (c *Ctx) ord6() {
 	ping := c.acc("ORD-6", off, "ping-slot-drained-with-ErrBreak")
 	ball := c.acc("ORD-6", off, "breakAll-called")
 	keep := c.acc("ORD-6", off, "pendingAck-kept")
+	order := c.acc("ORD-6", off, "requests-released-after-write-token-exchanged")
 	for _, p := range c.Paths("ORD-6", off) {
 		if p.End != pathx.KReturn {
 			continue
@@ -668,7 +669,13 @@ func (c *Ctx) ord6() {
 				ping.pass() // default arm: empty slot
 			}
 		}
-		if p.Index(0, func(e *pathx.Event) bool { return isCallTo(e, brk) }) >= 0 {
+		ib := p.Index(0, func(e *pathx.Event) bool { return isCallTo(e, brk) })
+		if ib >= 0 && (ib < iSend || isel >= 0 && isel < iSend) {
+			order.fail(p, ib, "waiting requests are released before the connection is closed and the write token exchanged: a request submitted in between is never told about the connection loss")
+		} else if ib >= 0 {
+			order.pass()
+		}
+		if ib >= 0 {
 			ball.pass()
 		} else {
 			ball.fail(p, last, "pending Subscribe/Unsubscribe requests are not released (breakAll missing)")
@@ -680,6 +687,7 @@ func (c *Ctx) ord6() {
 	ping.done(2, "slot drained without blocking; a waiting Ping gets ErrBreak")
 	ball.done(1, "breakAll called on every open path")
 	keep.done(0, "no store to pendingAck")
+	order.done(1, "ping drain and breakAll follow the deposit of connPending")
 }
 
 // ---- ORD-8: shutdown ----
@@ -764,6 +772,32 @@ func (c *Ctx) ord8() {
 		}
 	}
 	tping.done(1, "ping slot drained, goroutines awaited, breakAll called")
+
+	// Close and Disconnect: the context is cancelled before connSem is awaited
+	for _, fn := range []*ssa.Function{c.Fn("ORD-8", "(*Client).Close"), disc} {
+		if fn == nil {
+			continue
+		}
+		cf := c.acc("ORD-8", fn, "context-cancelled-before-waiting-for-connSem")
+		for _, p := range c.Paths("ORD-8", fn) {
+			if p.Start != fn.Blocks[0] {
+				continue
+			}
+			ic := p.Index(0, func(e *pathx.Event) bool {
+				return e.Kind == pathx.KCall && e.Call != nil && e.Callee == nil && e.Method == nil && roleKey(e.Call.Value) == "Client.cancel"
+			})
+			ir := p.Index(0, func(e *pathx.Event) bool { return e.Kind == pathx.KRecv && tokenOf(e.Chan) == tkConn })
+			if ir < 0 {
+				continue
+			}
+			if ic >= 0 && ic < ir {
+				cf.pass()
+			} else {
+				cf.fail(p, ir, "connSem is awaited before the connect context is cancelled: while ReadSlices dials or awaits CONNACK it holds connSem, so this call blocks for as long as the dial or handshake lasts")
+			}
+		}
+		cf.done(1, "c.cancel() precedes the receive from connSem on every path")
+	}
 
 	// Disconnect: DISCONNECT is the last packet
 	dl := c.acc("ORD-8", disc, "DISCONNECT-last-then-Close,token-never-redeposited")
